@@ -751,12 +751,13 @@ EGLPNUM_TYPENAME_QSLIB_INTERFACE EGLPNUM_TYPENAME_QSdata *EGLPNUM_TYPENAME_QScop
 	p2->factorok = 0;
 	p2->simplex_display = p->simplex_display;
 	p2->simplex_scaling = p->simplex_scaling;
-	EGLPNUM_TYPENAME_EGlpNumClearVar (p2->pricing->htrigger);
-	*(p2->pricing) = *(p->pricing);
-	/* I added this line because copying the EGLPNUM_TYPENAME_heap (as a pointer) doesn't make any
-	 * sense ! */
-	EGLPNUM_TYPENAME_ILLheap_init (&(p2->pricing->h));
-	EGLPNUM_TYPENAME_EGlpNumInitVar (p2->pricing->htrigger);
+	/* copy the pricing settings only: the norm arrays, partial-pricing tables
+	 * and heap inside p->pricing are owned by p (a struct copy made both
+	 * problems free the same arrays) */
+	p2->pricing->pI_price = p->pricing->pI_price;
+	p2->pricing->pII_price = p->pricing->pII_price;
+	p2->pricing->dI_price = p->pricing->dI_price;
+	p2->pricing->dII_price = p->pricing->dII_price;
 	EGLPNUM_TYPENAME_EGlpNumCopy (p2->pricing->htrigger, p->pricing->htrigger);
 
 	if (p->qslp->intmarker != 0)
